@@ -341,3 +341,31 @@ package expressions
 //@ props C08 C01
 //@ panics values.TypeError, expressions.InterpreterError, expressions.UndefinedFilter, expressions.FilterError
 //@ ensures nonnil: result != nil
+
+// (a..b): both endpoints are evaluated (start first) and converted to int; a range that would
+// have more than MaxInt elements is rejected (InterpreterError), so every Range that is
+// created satisfies the invariant of values.Range (its length does not overflow)
+//@ func expressions.makeRangeExpr$1
+//@ expect func(ctx expressions.Context) values.Value
+//@ implements func(expressions.Context) values.Value
+//@ props C11 C08 C01
+//@ panics values.TypeError, expressions.InterpreterError, expressions.UndefinedFilter, expressions.FilterError
+//@ requires captured: startFn != nil && endFn != nil
+//@ overflow
+//@ ensures nonnil: result != nil
+
+//@ func expressions.makeContainsExpr$1
+//@ expect func(ctx expressions.Context) values.Value
+//@ implements func(expressions.Context) values.Value
+//@ props C09 C01
+//@ panics values.TypeError, expressions.InterpreterError, expressions.UndefinedFilter, expressions.FilterError
+//@ requires captured: e1 != nil && e2 != nil
+//@ ghost a Val = nil
+//@ ghost b Val = nil
+//@ ghost r Bool = false
+//@ at call e1 #1 before assert leftFirst: b == nil
+//@ at call e1 #1: a = result
+//@ at call e2 #1: b = result
+//@ at call Contains #1 before assert operands: this == a && arg0 == b
+//@ at call Contains #1: r = result
+//@ ensures contains: result != nil && result.Interface() == box(r, bool)
